@@ -882,10 +882,13 @@ class NetworkXGraphStorage:
                 self.lock.release()
 
     storage_instance = None
+    # guards the creation of the one instance: two threads using the store for the first time must end up sharing it
+    creation_lock = Lock()
 
     def __init__(self, logger=None):
-        if not NetworkXGraphStorage.storage_instance:
-            NetworkXGraphStorage.storage_instance = NetworkXGraphStorage.__NetworkXGraphStorage(logger=logger)
+        with NetworkXGraphStorage.creation_lock:
+            if not NetworkXGraphStorage.storage_instance:
+                NetworkXGraphStorage.storage_instance = NetworkXGraphStorage.__NetworkXGraphStorage(logger=logger)
 
     def __getattr__(self, name):
         return getattr(self.storage_instance, name)
